@@ -108,11 +108,12 @@ Definition entry_corr (x : sx) : sx :=
   let f := if oct_R radius =? radius then a else kernel Fixed data mask radius percent in
   L [of_Zss a; of_bool (check_median data mask radius percent f); of_Zss (count_img data mask radius)].
 
-(* (variant intlike data mask radius percent) -> (0 out counts) | (1) declined | (2) IndexError *)
+(* (variant intlike data mask radius percent) -> (0 out counts ranked) | (1) declined | (2) IndexError *)
 Definition entry_wcorr (x : sx) : sx :=
   match wrapper (as_variant (arg 0 x)) (as_bool (arg 1 x)) (as_Zss (arg 2 x)) (as_boolss (arg 3 x))
                 (as_Z (arg 4 x)) (as_Z (arg 5 x)) with
-  | WOut o => L [I 0; of_Zss o; of_Zss (count_img (as_Zss (arg 2 x)) (as_boolss (arg 3 x)) (as_Z (arg 4 x)))]
+  | WOut b o => L [I 0; of_Zss o; of_Zss (count_img (as_Zss (arg 2 x)) (as_boolss (arg 3 x)) (as_Z (arg 4 x)));
+                   of_bool b]
   | WDecline => L [I 1]
   | WIndexError => L [I 2]
   end.
